@@ -343,6 +343,23 @@ func runC01(r *Rand, tier string, o *Out) {
 		o.Do("P", fmt.Sprintf("msg.limit %d", sz), true)
 		o.Count("limit-boundary")
 	}
+	// payloads around 64 KiB and its multiples (where readers and transports cut), another message right behind
+	for _, sz := range []int{65535, 65536, 65537, 70000, 131073} {
+		h1, _ := genHeader(r, true)
+		p1 := r.Bytes(sz)
+		h1.Size = uint32(len(p1))
+		h2, _ := genHeader(r, true)
+		p2 := r.Bytes(1 + r.Intn(40))
+		h2.Size = uint32(len(p2))
+		w := append(wireOf(h1, p1), wireOf(h2, p2)...)
+		if sz%2 == 1 {
+			o.Do("P", "msg.read 2 d:"+hx(w), true) // everything is there at once
+		} else {
+			cut := 28 + r.Intn(sz)
+			o.Do("P", "msg.read 2 d:"+hx(w[:cut])+" d:"+hx(w[cut:]), true)
+		}
+		o.Count("big:around-64KiB")
+	}
 	for i := 0; i < n; i++ {
 		switch {
 		case i%5 == 4:
